@@ -14,6 +14,8 @@
 -/
 import GunYu.Model.Lease
 import GunYu.Proofs.Lease
+import GunYu.Model.LeaseTimed
+import GunYu.Proofs.LeaseTimed
 
 namespace GunYu.Props.C15
 open GunYu GunYu.Lease
@@ -272,56 +274,271 @@ example : (step exCfg (exRun [.campaign kK iA, .renew kK iA, .tick 3001]) (.camp
 
 /-! ### what the instance does with the answers (cmd/syncer.go clusterTicker) -/
 
-theorem tickerLeader_stops (R : Nat) (k : Nat) :
-    ∀ (i n : Nat) (a1 a2 : TRes) (rest : List TRes) (calls : List Nat),
-      renewErr a1 ≠ .ok → renewErr a2 ≠ .ok → k < n →
-      (tickerLeader R i n (List.replicate k .ok ++ a1 :: a2 :: rest) calls).closed
-        = some ((i + k) * R, renewErr a2) := by
+/-- For EVERY script of election answers — failures, late successes, calls
+    that never return — every renew period, hold, observation length and
+    initial deadline: when the leader's `clusterTicker` returns, the send
+    instant of its last successful call lies at most `hold` back (`deadline`
+    = that instant + hold), and if it has not returned within the observed
+    horizon, the horizon is still inside that window. -/
+theorem ticker_returns_by_deadline (R H hor : Nat) :
+    ∀ (n i dl : Nat) (script : List TRes) (calls : List Nat),
+      (∀ r, (tickerLeader R H hor i n dl script calls).returned = some r →
+          r ≤ (tickerLeader R H hor i n dl script calls).deadline) ∧
+      ((tickerLeader R H hor i n dl script calls).returned = none →
+          hor < (tickerLeader R H hor i n dl script calls).deadline) := by
+  have hw : ∀ (calls : List Nat) (dl : Nat),
+      (∀ r, (watchdogOut calls dl hor).returned = some r → r ≤ (watchdogOut calls dl hor).deadline) ∧
+      ((watchdogOut calls dl hor).returned = none → hor < (watchdogOut calls dl hor).deadline) := by
+    intro calls dl
+    unfold watchdogOut
+    by_cases h : dl ≤ hor
+    · simp only [h, ↓reduceIte]
+      refine ⟨fun r hr => ?_, fun hr => ?_⟩
+      · simp only [Option.some.injEq] at hr; omega
+      · simp at hr
+    · simp only [h, ↓reduceIte]
+      refine ⟨fun r hr => ?_, fun _ => by omega⟩
+      simp at hr
+  intro n
+  induction n with
+  | zero => intro i dl script calls; simp only [tickerLeader]; exact hw calls dl
+  | succ n ih =>
+    intro i dl script calls
+    simp only [tickerLeader]
+    by_cases h1 : dl < i * R
+    · simp only [h1, ↓reduceIte]; exact hw calls dl
+    · simp only [h1, ↓reduceIte]
+      by_cases h2 : script.headD .ok = .blk
+      · simp only [h2, ↓reduceIte]; exact hw _ dl
+      · simp only [h2, ↓reduceIte]
+        by_cases h3 : renewErr (script.headD .ok) = .ok
+        · simp only [h3, ↓reduceIte]; exact ih _ _ _ _
+        · simp only [h3, ↓reduceIte]
+          by_cases h4 : script.tail.headD .ok = .blk
+          · simp only [h4, ↓reduceIte]; exact hw _ dl
+          · simp only [h4, ↓reduceIte]
+            by_cases h5 : renewErr (script.tail.headD .ok) = .ok
+            · simp only [h5, ↓reduceIte]; exact ih _ _ _ _
+            · simp only [h5, ↓reduceIte]
+              refine ⟨fun r hr => ?_, fun hr => ?_⟩
+              · simp only [Option.some.injEq] at hr; omega
+              · simp at hr
+
+/-- the same for the whole ticker: it returns within `H` of the send of the
+    campaign that made it leader (`ago` before it started) or of its last
+    successful renewal; this is the schedule condition `TAllowed` of the
+    timed system model, with calls of ANY duration. -/
+theorem ticker_leads_within_hold (R H ago n : Nat) (script : List TRes) :
+    (∀ r, (tickerRun true R H ago n script).returned = some r →
+        r ≤ (tickerRun true R H ago n script).deadline) ∧
+    ((tickerRun true R H ago n script).returned = none →
+        n * R + R / 2 < (tickerRun true R H ago n script).deadline) := by
+  simp only [tickerRun, ↓reduceIte]
+  exact ticker_returns_by_deadline R H _ n 1 _ script []
+
+theorem tickerLeader_stops (R H hor : Nat) (hRH : R ≤ H) (k : Nat) :
+    ∀ (i n dl : Nat) (a1 a2 : TRes) (rest : List TRes) (calls : List Nat),
+      renewErr a1 ≠ .ok → renewErr a2 ≠ .ok → a1 ≠ .blk → a2 ≠ .blk → k < n → i * R ≤ dl →
+      (tickerLeader R H hor i n dl (List.replicate k .ok ++ a1 :: a2 :: rest) calls).closed
+        = some ((i + k) * R, renewErr a2) ∧
+      (tickerLeader R H hor i n dl (List.replicate k .ok ++ a1 :: a2 :: rest) calls).returned
+        = some ((i + k) * R) := by
   induction k with
   | zero =>
-    intro i n a1 a2 rest calls h1 h2 hn
+    intro i n dl a1 a2 rest calls h1 h2 b1 b2 hn hdl
     obtain ⟨m, rfl⟩ : ∃ m, n = m + 1 := ⟨n - 1, by omega⟩
-    simp [tickerLeader, h1, h2]
+    have : ¬ dl < i * R := by omega
+    simp [tickerLeader, h1, h2, b1, b2, this]
   | succ k ih =>
-    intro i n a1 a2 rest calls h1 h2 hn
+    intro i n dl a1 a2 rest calls h1 h2 b1 b2 hn hdl
     obtain ⟨m, rfl⟩ : ∃ m, n = m + 1 := ⟨n - 1, by omega⟩
-    have := ih (i + 1) m a1 a2 rest (i * R :: calls) h1 h2 (by omega)
-    simp only [List.replicate_succ, List.cons_append, tickerLeader, List.headD_cons,
-      show renewErr .ok = .ok from rfl, ↓reduceIte, List.tail_cons]
-    rw [this, show i + 1 + k = i + (k + 1) by omega]
+    have hlt : ¬ dl < i * R := by omega
+    have := ih (i + 1) m (i * R + H) a1 a2 rest (i * R :: calls) h1 h2 b1 b2 (by omega)
+      (by rw [Nat.add_mul]; omega)
+    simp only [List.replicate_succ, List.cons_append, tickerLeader, List.headD_cons, hlt,
+      show (TRes.ok = TRes.blk) = False by simp, show renewErr .ok = .ok from rfl, ↓reduceIte,
+      List.tail_cons]
+    rw [this.1, this.2, show i + 1 + k = i + (k + 1) by omega]
+    exact ⟨rfl, rfl⟩
 
 /-- A leader whose renewal fails (both attempts of one tick, whatever the
     error: ErrNotLeader or an I/O error) after `k` good ticks closes its
-    syncer's wait at that very tick, with that error — it does not wait for a
-    further tick. -/
-theorem ticker_failed_renewal_stops_leader (R k n : Nat) (a1 a2 : TRes) (rest : List TRes)
-    (h1 : renewErr a1 ≠ .ok) (h2 : renewErr a2 ≠ .ok) (hk : k < n) :
-    (tickerRun true R n (List.replicate k .ok ++ a1 :: a2 :: rest)).closed
-      = some ((k + 1) * R, renewErr a2) ∧ renewErr a2 ≠ .ok := by
-  refine ⟨?_, h2⟩
-  have := tickerLeader_stops R k 1 n a1 a2 rest [] h1 h2 hk
+    syncer's wait and returns at that very tick, with that error (the lease
+    timer has not fired: renew period ≤ hold, first tick inside the hold of
+    the campaign). -/
+theorem ticker_failed_renewal_stops_leader (R H ago k n : Nat) (a1 a2 : TRes) (rest : List TRes)
+    (h1 : renewErr a1 ≠ .ok) (h2 : renewErr a2 ≠ .ok) (b1 : a1 ≠ .blk) (b2 : a2 ≠ .blk) (hk : k < n)
+    (hRH : R ≤ H) (h0 : ago + R ≤ H) :
+    (tickerRun true R H ago n (List.replicate k .ok ++ a1 :: a2 :: rest)).closed
+      = some ((k + 1) * R, renewErr a2) ∧
+    (tickerRun true R H ago n (List.replicate k .ok ++ a1 :: a2 :: rest)).returned = some ((k + 1) * R) ∧
+    renewErr a2 ≠ .ok := by
+  have := tickerLeader_stops R H (n * R + R / 2) hRH k 1 n (H - ago) a1 a2 rest [] h1 h2 b1 b2 hk (by omega)
   simp only [tickerRun, ↓reduceIte, this, show 1 + k = k + 1 by omega]
+  exact ⟨trivial, trivial, h2⟩
 
 /-- …and that instant lies before the deadline of the lease it last renewed
-    (`k·R + T`, last success at tick `k`, or the campaign at 0) whenever the
+    (`k·R + T`, last success sent at tick `k`, or the campaign) whenever the
     renew period is shorter than the lease, which every fixed configuration
-    satisfies (`two_renewals_within_ttl`). Calls take no time in `tickerRun`:
-    a renewal call that blocks is outside this statement. -/
-theorem ticker_stops_before_lease_deadline (R T k n : Nat) (a1 a2 : TRes) (rest : List TRes)
-    (h1 : renewErr a1 ≠ .ok) (h2 : renewErr a2 ≠ .ok) (hk : k < n) (hRT : R < T) :
-    ∃ t e, (tickerRun true R n (List.replicate k .ok ++ a1 :: a2 :: rest)).closed = some (t, e)
+    satisfies (`two_renewals_within_ttl`). -/
+theorem ticker_stops_before_lease_deadline (R H T ago k n : Nat) (a1 a2 : TRes) (rest : List TRes)
+    (h1 : renewErr a1 ≠ .ok) (h2 : renewErr a2 ≠ .ok) (b1 : a1 ≠ .blk) (b2 : a2 ≠ .blk) (hk : k < n)
+    (hRH : R ≤ H) (h0 : ago + R ≤ H) (hRT : R < T) :
+    ∃ t e, (tickerRun true R H ago n (List.replicate k .ok ++ a1 :: a2 :: rest)).closed = some (t, e)
       ∧ e ≠ .ok ∧ t < k * R + T := by
-  refine ⟨(k + 1) * R, renewErr a2, (ticker_failed_renewal_stops_leader R k n a1 a2 rest h1 h2 hk).1, h2, ?_⟩
+  refine ⟨(k + 1) * R, renewErr a2,
+    (ticker_failed_renewal_stops_leader R H ago k n a1 a2 rest h1 h2 b1 b2 hk hRH h0).1, h2, ?_⟩
   rw [Nat.add_mul]; omega
 
--- non-vacuity: two good ticks, then ErrNotLeader twice: closed at 3 s, four ticks were allowed
-example : tickerRun true 1000 4 [.ok, .ok, .notLeader, .notLeader]
-    = { calls := [1000, 2000, 3000, 3000], closed := some (3000, .notLeader) } := by decide
+/-- A renewal that never returns: the lease timer ends the leader's ticker at
+    `hold` after the send of the last successful call — it does not wait for
+    the call. (Before /repo 8b531f9 the ticker never returned in this case.) -/
+theorem watchdogOut_returned (calls : List Nat) (dl hor : Nat) :
+    (watchdogOut calls dl hor).returned = if dl ≤ hor then some dl else none := by
+  unfold watchdogOut; split <;> rfl
+
+theorem tickerLeader_blocked (R H hor : Nat) (hRH : R ≤ H) (rest : List TRes) (k : Nat) :
+    ∀ (i m dl : Nat) (calls : List Nat), k < m → i * R ≤ dl →
+      (tickerLeader R H hor i m dl (List.replicate k .ok ++ .blk :: rest) calls).returned
+        = if (if k = 0 then dl else (i + k - 1) * R + H) ≤ hor
+          then some (if k = 0 then dl else (i + k - 1) * R + H) else none := by
+  induction k with
+  | zero =>
+    intro i m dl calls hm hdl
+    obtain ⟨m', rfl⟩ : ∃ m', m = m' + 1 := ⟨m - 1, by omega⟩
+    have : ¬ dl < i * R := by omega
+    simp [tickerLeader, this, watchdogOut_returned]
+  | succ k ih =>
+    intro i m dl calls hm hdl
+    obtain ⟨m', rfl⟩ : ∃ m', m = m' + 1 := ⟨m - 1, by omega⟩
+    have hlt : ¬ dl < i * R := by omega
+    have := ih (i + 1) m' (i * R + H) (i * R :: calls) (by omega) (by rw [Nat.add_mul]; omega)
+    simp only [List.replicate_succ, List.cons_append, tickerLeader, List.headD_cons, hlt,
+      show (TRes.ok = TRes.blk) = False by simp, show renewErr .ok = .ok from rfl, ↓reduceIte,
+      List.tail_cons]
+    rw [this]
+    by_cases hk' : k = 0
+    · subst hk'; simp
+    · have e2 : (i + 1 + k - 1) = (i + (k + 1) - 1) := by omega
+      simp [hk', e2]
+
+/-- A renewal that never returns: the lease timer ends the leader's ticker at
+    `hold` after the send of the last successful call — it does not wait for
+    the call. (Before /repo 8b531f9 the ticker never returned in this case.) -/
+theorem ticker_blocked_renewal_stops_leader (R H ago k n : Nat) (rest : List TRes)
+    (hk : k < n) (hRH : R ≤ H) (h0 : ago + R ≤ H) (hk0 : 0 < k) (hhor : k * R + H ≤ n * R + R / 2) :
+    (tickerRun true R H ago n (List.replicate k .ok ++ .blk :: rest)).returned = some (k * R + H) := by
+  have := tickerLeader_blocked R H (n * R + R / 2) hRH rest k 1 n (H - ago) [] hk (by omega)
+  have hk1 : ¬ k = 0 := by omega
+  have e : 1 + k - 1 = k := by omega
+  simp only [tickerRun, ↓reduceIte, this, hk1, e, hhor]
+
+-- non-vacuity (R = 1.5 s, hold 3.5 s = lease 5 s − R, campaign sent 200 ms before the ticker started)
+-- two good ticks, then ErrNotLeader twice: closed and returned at 4.5 s
+example : tickerRun true 1500 3500 200 6 [.ok, .ok, .notLeader, .notLeader]
+    = { calls := [1500, 3000, 4500, 4500], closed := some (4500, .notLeader), returned := some 4500,
+        deadline := 6500 } := by decide
 -- a failed first attempt that succeeds on the retry keeps the leader running
-example : (tickerRun true 1000 3 [.err, .ok]).closed = none := by decide
+example : (tickerRun true 1500 3500 200 3 [.err, .ok]).returned = none := by decide
+-- the first renewal never returns: the lease timer ends the ticker at -200 + 3500
+example : tickerRun true 1500 3500 200 6 [.blk]
+    = { calls := [1500], closed := some (3300, .notLeader), returned := some 3300, deadline := 3300 } := by
+  decide
+-- one good renewal at 1.5 s, the next never returns: ended at 1500 + 3500
+example : (tickerRun true 1500 3500 200 7 [.ok, .blk]).returned = some 5000 := by decide
 -- a follower that wins closes the wait with nil (restart as leader)
-example : tickerRun false 1000 5 [.follower, .leader]
-    = { calls := [1000, 2000], closed := some (2000, .ok) } := by decide
+example : (tickerRun false 1500 3500 200 5 [.follower, .leader]).closed = some (3000, .ok) := by decide
+
+/-! ### at most one instance RUNS RunLeader — election calls of any duration -/
+
+/-- For EVERY schedule of sends, script executions, answers (arbitrarily late
+    or never), abandoned calls, stray executions, stops, crashes, resigns and
+    clock ticks, by any number of instances on any number of keys, from any
+    initial store — subject only to `TAllowed`: real time does not pass beyond
+    `okSent + hold id` while instance `id` leads, with `hold id ≤ ttl` — two
+    instances that both run RunLeader for `key` are the same instance. -/
+theorem at_most_one_acting (cfg hold : Bytes → Nat) (hcfg : ∀ id, 1 ≤ cfg id)
+    (hh : ∀ id, hold id ≤ cfg id * 1000) (st : Store) (now : Nat) (evs : List TEv)
+    (hok : trunOk cfg hold (TSys.init st now) evs) (key i j : Bytes)
+    (hi : ((trun cfg hold (TSys.init st now) evs).inst key i).acting = true)
+    (hj : ((trun cfg hold (TSys.init st now) evs).inst key j).acting = true) : i = j := by
+  have h := tinv_run hcfg hh evs (tinv_init cfg hold st now) hok
+  exact holder_unique_of_inv h.1 (acting_holder hh h hi) (acting_holder hh h hj)
+
+theorem trunOk_take (cfg hold : Bytes → Nat) (evs : List TEv) :
+    ∀ (s : TSys) (n : Nat), trunOk cfg hold s evs → trunOk cfg hold s (evs.take n) := by
+  induction evs with
+  | nil => intro s n h; simp [trunOk]
+  | cons ev rest ih =>
+    intro s n h
+    cases n with
+    | zero => simp [trunOk]
+    | succ n => simp only [List.take_succ_cons, trunOk]; exact ⟨h.1, ih _ n h.2⟩
+
+/-- the acting intervals of two different instances are disjoint in real time:
+    at NO point of the schedule do two of them lead -/
+theorem acting_intervals_disjoint (cfg hold : Bytes → Nat) (hcfg : ∀ id, 1 ≤ cfg id)
+    (hh : ∀ id, hold id ≤ cfg id * 1000) (st : Store) (now : Nat) (evs : List TEv)
+    (hok : trunOk cfg hold (TSys.init st now) evs) (n : Nat) (key i j : Bytes)
+    (hi : ((trun cfg hold (TSys.init st now) (evs.take n)).inst key i).acting = true)
+    (hj : ((trun cfg hold (TSys.init st now) (evs.take n)).inst key j).acting = true) : i = j :=
+  at_most_one_acting cfg hold hcfg hh st now (evs.take n) (trunOk_take cfg hold evs _ n hok) key i j hi hj
+
+/-- an instance that leads holds the lease at the store: its value, unexpired -/
+theorem acting_has_lease (cfg hold : Bytes → Nat) (hcfg : ∀ id, 1 ≤ cfg id)
+    (hh : ∀ id, hold id ≤ cfg id * 1000) (st : Store) (now : Nat) (evs : List TEv)
+    (hok : trunOk cfg hold (TSys.init st now) evs) (key i : Bytes)
+    (hi : ((trun cfg hold (TSys.init st now) evs).inst key i).acting = true) :
+    ∃ e, lookup (trun cfg hold (TSys.init st now) evs).base.store
+            (trun cfg hold (TSys.init st now) evs).base.now key = some e ∧ e.val = i := by
+  have h := tinv_run hcfg hh evs (tinv_init cfg hold st now) hok
+  obtain ⟨d, ht, hd⟩ := acting_holder hh h hi
+  obtain ⟨e, hs, hv, hde⟩ := (h.1 key i d ht).2 hd
+  exact ⟨e, lookup_of_live hs (Nat.le_trans hd hde), hv⟩
+
+/-- with the code's quantities: `H` = leaseHold on the instance's clock, `D` =
+    drift of that clock against the store's over one lease, `S` = time to stop
+    the syncer after the ticker returned. Enough: `H + D + S ≤ ttl` — with
+    `H = ttl − renew period` (cmd/syncer.go leaseHold): `D + S ≤ renew period`. -/
+theorem at_most_one_acting_with_drift (cfg H D S : Bytes → Nat) (hcfg : ∀ id, 1 ≤ cfg id)
+    (hh : ∀ id, H id + D id + S id ≤ cfg id * 1000) (st : Store) (now : Nat) (evs : List TEv)
+    (hok : trunOk cfg (fun id => H id + D id + S id) (TSys.init st now) evs) (key i j : Bytes)
+    (hi : ((trun cfg (fun id => H id + D id + S id) (TSys.init st now) evs).inst key i).acting = true)
+    (hj : ((trun cfg (fun id => H id + D id + S id) (TSys.init st now) evs).inst key j).acting = true) :
+    i = j :=
+  at_most_one_acting cfg _ hcfg hh st now evs hok key i j hi hj
+
+section timedExamples
+def exHold : Bytes → Nat := fun _ => 2000      -- ttl 3 s − renew period 1 s
+def tRun (evs : List TEv) : TSys := trun exCfg exHold (TSys.init Store.empty 5) evs
+
+-- the hypotheses are met by a schedule with a slow call: a campaigns at 5, the script runs at 405,
+-- the answer arrives at 905; a leads; renewal sent at 1805, answered at 1905; time moves on to 3705 ≤ 1805 + 2000
+def okEvs : List TEv := [.send kK iA, .tick 400, .exec kK iA, .tick 500, .answer kK iA, .tick 900,
+  .send kK iA, .tick 50, .exec kK iA, .tick 50, .answer kK iA, .tick 1800]
+example : ((tRun okEvs).inst kK iA).acting = true := by decide
+example : ((tRun okEvs).inst kK iA).okSent = 1805 := by decide
+example : (tRun okEvs).base.now = 3705 := by decide
+-- an answer "leader" that arrives later than `hold` after its send does not make a leader
+example : ((tRun [.send kK iA, .exec kK iA, .tick 2001, .answer kK iA]).inst kK iA).acting = false := by decide
+example : trunOk exCfg exHold (TSys.init Store.empty 5) okEvs :=
+  trunOk_of_B exCfg exHold [(kK, iA)] okEvs _ (fun _ _ _ => rfl) (by decide) (by decide)
+end timedExamples
+
+/-- COUNTER-WITNESS without the schedule condition: a's renewal never returns
+    (sent at 1005, no answer), real time passes the end of a's lease (3005),
+    b campaigns and is answered "leader": both run RunLeader. This is what the
+    code did before /repo 8b531f9 (clusterTicker blocked in the call). -/
+def blockedEvs : List TEv := [.send kK iA, .exec kK iA, .answer kK iA, .tick 1000, .send kK iA,
+  .tick 2001, .send kK iB, .exec kK iB, .answer kK iB]
+
+example : ((tRun blockedEvs).inst kK iA).acting = true ∧ ((tRun blockedEvs).inst kK iB).acting = true := by
+  decide
+-- …and it is exactly the tick past okSent + hold that `TAllowed` forbids
+example : ¬ trunOk exCfg exHold (TSys.init Store.empty 5) blockedEvs := by
+  intro h
+  have h6 := h.2.2.2.2.2.1 kK iA (by decide)
+  exact absurd h6 (by decide)
 
 /-! ### election identity (config ServerConfig.fix + cluster-mode check) -/
 
